@@ -86,7 +86,9 @@ def run(ctx):
                  "float (tolerance stream); table _hinfo compared entry by entry, then outputs; per non-empty interior column the plain "
                  "sum before/after apply() (tolerated: rounding, and e1*|in(k)| in the four switch rows of the 4-point stencil); "
                  "identity-matrix data give every column sum of the operator. Non-trivial: variant != none, e1 != 0.")
-    coq = vp_coq.full_check("C01", ctx, fams=("kick", "fp"))
+    ctx.rule += (" identity cases: nb 1..3, n 4..17, random source and target grids: target = source bit for bit for every bunch, total unchanged, "
+                 "source untouched; extracted copy model (generated count/indices) exact.")
+    coq = vp_coq.full_check("C01", ctx, fams=("kick", "fp", "run"))
     nk = 120 if ctx.quick() else 3000
     cases = kc.gen_cases(ctx, nk) + farshift_cases(ctx, 24 if ctx.quick() else 400)
     res = kc.run_cases(ctx, cases)
@@ -108,6 +110,8 @@ def run(ctx):
         fc.oracle_conservation(ctx, c, fres[c.cid])
     ctx.sample(fcases[0].describe())
     ctx.sample(fcases[-1].describe())
+    import ident_cases
+    dis += ident_cases.ident_subcheck(ctx, "C01")
     ctx.extra["correspondence_disagreements"] = len(dis)
     ctx.assumptions += ["exact-arithmetic model; rounding handled by the exact/tolerance streams (DESIGN 3)"]
     conclude(ctx, coq, dis)
